@@ -1,6 +1,6 @@
 (** C05 / C06 — proofs about the frame codec, the streaming decoder and the batch codec. *)
-Require Import Selium.Base Selium.Bytes Selium.Utf8 Selium.Bincode Selium.P_Bincode Selium.CodecTactics Selium.Wire.
-Require Import SeliumGen.Layouts SeliumGen.LayoutsOk.
+Require Import Selium.Base Selium.Bytes Selium.Utf8 Selium.Bincode Selium.P_Bincode Selium.CodecTactics Selium.Wire Selium.BatchArith.
+Require Import SeliumGen.Layouts SeliumGen.LayoutsOk SeliumGen.BatchFacts.
 Require Import ZifyBool ZifyN ZifyNat.
 Ltac Zify.zify_post_hook ::= Z.div_mod_to_equations.
 Open Scope N_scope.
@@ -316,6 +316,24 @@ Qed.
 
 (** * Batch codec (utils.rs) *)
 
+(** What the translated conditions and expressions of utils.rs have to be for the theorems below;
+    each is closed by computation on the regenerated definition, so a changed comparison, bound or
+    arithmetic expression in the source fails here first. *)
+Lemma gen_enc_count_spec n : gen_enc_count n = Val n.  Proof. reflexivity. Qed.
+Lemma gen_enc_len_spec n : gen_enc_len n = Val n.  Proof. reflexivity. Qed.
+Lemma gen_head_guard_spec r : gen_head_guard r = Val (r <? 8).  Proof. reflexivity. Qed.
+Lemma gen_capacity_spec r n : gen_capacity r n = Val (N.min (r / 8) n).  Proof. reflexivity. Qed.
+Lemma gen_loop_guard1_spec r : gen_loop_guard1 r = Val (r <? 8).  Proof. reflexivity. Qed.
+Lemma gen_loop_guard2_spec ml r : gen_loop_guard2 ml r = Val (r <? ml).  Proof. reflexivity. Qed.
+Lemma gen_split_arg_spec ml r : gen_split_arg ml r = Val ml.  Proof. reflexivity. Qed.
+
+Ltac gen_batch := rewrite ?gen_enc_count_spec, ?gen_enc_len_spec, ?gen_head_guard_spec, ?gen_capacity_spec,
+                          ?gen_loop_guard1_spec, ?gen_loop_guard2_spec, ?gen_split_arg_spec; cbn [bind out_or].
+
+Lemma encode_batch_eq ms :
+  encode_batch ms = be_bytes 8 (N.of_nat (List.length ms)) ++ concat (map (fun m => be_bytes 8 (blen m) ++ m) ms).
+Proof. reflexivity. Qed.
+
 Definition batch_body (ms : list bytes) : bytes := concat (map (fun m => be_bytes 8 (blen m) ++ m) ms).
 
 Lemma get_u64_be_app n rest : n < 2 ^ 64 -> get_u64_be (be_bytes 8 n ++ rest) = Val (n, rest).
@@ -336,11 +354,11 @@ Proof.
     cbn [batch_loop].
     destruct (N.eqb_spec (N.of_nat (List.length (m :: ms))) 0) as [H0|_]; [cbn [List.length] in H0; lia|].
     cbn [batch_body map concat]. fold (batch_body ms).
-    rewrite <- app_assoc.
+    rewrite <- app_assoc. gen_batch.
     assert (Hb : blen (be_bytes 8 (blen m) ++ m ++ batch_body ms) = 8 + blen m + blen (batch_body ms)).
     { unfold blen. rewrite !app_length, be_bytes_length. lia. }
     rewrite Hb. destruct (N.ltb_spec (8 + blen m + blen (batch_body ms)) 8); [lia|].
-    rewrite get_u64_be_app by assumption. cbn [bind fst snd].
+    rewrite get_u64_be_app by assumption. cbn [bind fst snd]. gen_batch.
     assert (Hb2 : blen (m ++ batch_body ms) = blen m + blen (batch_body ms)) by (unfold blen; rewrite app_length; lia).
     rewrite Hb2. destruct (N.ltb_spec (blen m + blen (batch_body ms)) (blen m)); [lia|].
     rewrite split_to_app. cbn [bind fst snd].
@@ -361,11 +379,11 @@ Theorem batch_roundtrip ms :
   N.of_nat (List.length ms) < 2 ^ 64 -> Forall (fun m => blen m < 2 ^ 64) ms ->
   exists cap, decode_batch (encode_batch ms) = Val (ms, cap).
 Proof.
-  intros Hn Hwf. unfold decode_batch, encode_batch. fold (batch_body ms).
+  intros Hn Hwf. rewrite encode_batch_eq. unfold decode_batch. fold (batch_body ms). gen_batch.
   assert (Hb : blen (be_bytes 8 (N.of_nat (List.length ms)) ++ batch_body ms) = 8 + blen (batch_body ms)).
   { unfold blen. rewrite app_length, be_bytes_length. lia. }
   rewrite Hb. destruct (N.ltb_spec (8 + blen (batch_body ms)) 8); [lia|].
-  rewrite get_u64_be_app by assumption. cbn [bind fst snd].
+  rewrite get_u64_be_app by assumption. cbn [bind fst snd]. gen_batch.
   rewrite batch_loop_ok by (assumption || (pose proof (batch_body_length ms); lia)).
   cbn [rev app bind]. eexists; reflexivity.
 Qed.
@@ -376,10 +394,10 @@ Lemma batch_loop_total : forall fuel count b acc,
 Proof.
   induction fuel as [|k IH]; intros count b acc Hf; [lia|].
   cbn [batch_loop].
-  destruct (count =? 0); [eexists; reflexivity|].
+  destruct (count =? 0); [eexists; reflexivity|]. gen_batch.
   destruct (N.ltb_spec (blen b) 8) as [|H8]; [eexists; reflexivity|].
   unfold get_u64_be, split_to at 1. destruct (N.leb_spec 8 (blen b)); [|lia].
-  cbn [bind fst snd].
+  cbn [bind fst snd]. gen_batch.
   assert (Hs : blen (skipn (N.to_nat 8) b) = blen b - 8) by (unfold blen in *; rewrite skipn_length; lia).
   destruct (N.ltb_spec (blen (skipn (N.to_nat 8) b)) (be_val (firstn (N.to_nat 8) b))) as [|Hl]; [eexists; reflexivity|].
   unfold split_to. destruct (N.leb_spec (be_val (firstn (N.to_nat 8) b)) (blen (skipn (N.to_nat 8) b))); [|lia].
@@ -390,10 +408,10 @@ Qed.
 Theorem decode_batch_total b :
   exists ms cap, decode_batch b = Val (ms, cap) /\ cap * 8 <= blen b.
 Proof.
-  unfold decode_batch.
+  unfold decode_batch. gen_batch.
   destruct (N.ltb_spec (blen b) 8) as [|H8]; [exists [], 0; split; [reflexivity|lia]|].
   unfold get_u64_be, split_to. destruct (N.leb_spec 8 (blen b)); [|lia].
-  cbn [bind fst snd].
+  cbn [bind fst snd]. gen_batch.
   destruct (batch_loop_total (S (List.length (skipn (N.to_nat 8) b))) (be_val (firstn (N.to_nat 8) b)) (skipn (N.to_nat 8) b) []) as [ms Hms]; [lia|].
   rewrite Hms. cbn [bind]. eexists _, _. split; [reflexivity|].
   assert (Hs : blen (skipn (N.to_nat 8) b) = blen b - 8) by (unfold blen in *; rewrite skipn_length; lia).
